@@ -17,6 +17,11 @@ MODEL_NOTE = ("models M1 (lean/HqModel/Core: reactor, task queues, mapping after
 PARTIAL = ("the theorems are step-level (all states, all inputs of one step) or job-layer-global; the invariant over whole cluster histories "
            "is evaluated by harness monitors on every explored real trace and is not a theorem yet (DESIGN.md 6.1 stage B)")
 
+def journal(clauses, q=8, t=40):
+    """restart clause of a sim property: generated and real (kind sim) journals restored at every prefix by the real StateRestorer"""
+    return {"component": "journal", "driver": "hqm-journal", "tags": ["res", "sub", "adj", "core", "prod"], "clauses": clauses,
+            "quick": {"cases": q, "shards": 12, "extra": []}, "thorough": {"cases": t, "shards": 16, "extra": []}}
+
 def entry(pid, theorems, parts, extra_assumptions=()):
     return {"module": "HqModel.Props." + pid, "theorems": ["HqModel.%s.%s" % (pid, t) for t in theorems], "parts": parts,
             "assumptions": [MODEL_NOTE, PARTIAL] + list(extra_assumptions), "trusted_base": SIM_TRUST}
@@ -29,8 +34,9 @@ PROPS = {
                  [job(["core", "live", "resp", "tasks"], ["c02."]), core(["t", "q", "flag"], ["c02."])],
                  ["progress ('eventually terminal') depends on HiGHS returning an optimal solution and on the fair drain; monitored at rest "
                   "after a fault-free drain of every generated run, not proved"]),
-    "C03": entry("C03", ["c03_not_ready_with_deps", "c03_restart", "depClosed_iff"],
-                 [core(["msg", "t", "q", "cb"], ["c03."]), job(["ev", "resp", "tasks"], ["c03.", "c10.emit"]),
+    "C03": entry("C03", ["c03_not_ready_with_deps", "c03_restart", "depClosed_iff", "c03_compute_only_ready", "c03_compute_only_ready_run",
+                         "c03_consumers_waiting_reachable"],
+                 [core(["msg", "t", "q", "cb"], ["c03.", "core.hyp"]), job(["ev", "resp", "tasks"], ["c03.", "c10.emit"]),
                   # restart clause: journals persisted by the REAL server in simulated runs (kind sim) and generated ones,
                   # restored at every record boundary by the real StateRestorer; monitor c03.restart
                   {"component": "journal", "driver": "hqm-journal", "tags": ["res", "sub", "adj", "prod"], "clauses": ["c03.restart"],
@@ -49,10 +55,22 @@ PROPS = {
                   "RunningPrefilled of a Prefilled or Retracting task fits the free vector); the compiled model evaluates every side condition "
                   "on the pre-state of every operation of every real trace (model-side monitor c05.hyp): all hold on the unchanged tree except "
                   "NoSaturation, whose failure is finding F29 (c05_f29_witness shows it cannot be dropped)"]),
-    "C06": entry("C06", ["c06_retracting_lost_increments"],
-                 [core(["msg", "t", "rd", "w"], ["c06."])]),
-    "C07": entry("C07", ["c07_crash_decision", "c07_unlimited_never_fails", "c07_stop_is_no_crash", "c07_job_layer"],
-                 [core(["cb", "t", "q", "msg"], ["c07."]), job(["ev", "tasks", "job", "ret"], ["c07."])]),
+    "C06": entry("C06", ["c06_retracting_lost_increments", "c06_inst_never_decreases", "c06_sends_nondecreasing", "c06_sent_le_current",
+                         "c06_send_after_start", "c06_lost_worker_increments", "c06_equal_resend_witness", "c06_reuse_witness",
+                         "c06_started_unsent_witness", "c06_restart", "c06_restart_emitted", "c06_restart_reuse_witness"],
+                 [core(["msg", "t", "rd", "w"], ["c06.", "core.hyp"]), journal(["c06.restart"])],
+                 ["message-level theorems are about what the server SENDS: instance ids sent for one task never decrease (c06_sends_nondecreasing, "
+                  "hypothesis NoIdReuse: no task id submitted twice), every send after an announced start carries a larger id "
+                  "(c06_send_after_start), every loss of the worker holding a task increments its instance (c06_lost_worker_increments); an EQUAL "
+                  "resend occurs exactly where the first worker stated it had not started the task (reject / successful retract: "
+                  "c06_equal_resend_witness); that LAUNCHES on workers strictly increase is monitored on every real trace (c06.instance)",
+                  "c06_restart: the instance id a task is resubmitted with after a restart exceeds every recorded TaskStarted of it, for every "
+                  "producible journal in which no job id is re-created after a start (NoStartBeforeCreate: decidable; a theorem for journals the "
+                  "job-layer model emits, c06_restart_emitted; without it false: c06_restart_reuse_witness; real ids come from counters restored "
+                  "above every id in the journal, C11)"]),
+    "C07": entry("C07", ["c07_crash_decision", "c07_unlimited_never_fails", "c07_stop_is_no_crash", "c07_job_layer", "c07_crash_counter_step",
+                         "c07_crash_counter_mono", "c07_crash_only_running_on_lost", "c07_restart", "c07_restart_emitted", "c07_crashes_step"],
+                 [core(["cb", "t", "q", "msg"], ["c07.", "core.hyp"]), job(["ev", "tasks", "job", "ret"], ["c07."]), journal(["c07.restart"])]),
     "C08": entry("C08", ["c08_all_terminal", "c08_idempotent", "c08_other_jobs", "c08_core_forgets", "c08_core_forgets_reachable"],
                  [job(["ev", "resp", "tasks", "job", "live"], ["c08."]), core(["msg", "t", "w", "q", "rd", "cb"], ["c08.", "core.hyp"])]),
     "C09": entry("C09", ["c09_open_close_no_panic", "c09_forget_no_panic", "c09_cancel_no_panic"],
